@@ -494,6 +494,10 @@ def run(tier):
     vd = {"%s/%s" % k: vdso_used(b) for k, b in sorted(bins.items())}
     chk.extra["vdso"] = vd
     chk.extra["relocation_audit"] = {"%s/%s" % k: reloc_audit(b) for k, b in sorted(bins.items()) if k[0] == "spie"}
+    for k, a in chk.extra["relocation_audit"].items():
+        if a and a.get("unrelocated_count"):
+            core.log("LEAD (not a verdict): %s: %d relocated word(s) of the running static-PIE probe do not hold base + addend: %s" % (
+                k, a["unrelocated_count"], a["unrelocated_words"][:3]))
     chk.extra["model_leads_replayed"] = [{"env": [show(e) for e in e_], "key": show(k)} for e_, k in leads]
     chk.extra["execs"] = chk.evaluations
     chk.extra["lookups_judged"] = lookups
